@@ -47,6 +47,9 @@ def tree_scopes(tier, updates=1, ro=1, fill=1, growth=True, logs=True, rnd=True)
         # oracle-only: a value type whose Default is not all-zero bytes
         S("tree", type="T32u32bps", mode="bfs", slots=3, cap=3, keys="0,1,2,3", updates=0, ro=ro, fill=fill, nodriver=1),
         S("tree", type="T8u8bps", mode="bfs", slots=3, cap=3, max_slots=4, keys="0,1,2,3", updates=0, ro=0, fill=fill, nodriver=1),
+        # oracle-only: a key type whose ordering ignores part of the key (duplicate inserts carry other bytes)
+        S("tree", type="T8idtagu8", mode="bfs", slots=3, cap=3, keys="0,1,2,3", updates=0, ro=0, fill=0, nodriver=1),
+        S("tree", type="T32idtagu8", mode="bfs", slots=3, cap=3, keys="0,1,2,3", updates=updates, ro=ro, fill=0, nodriver=1),
     ]
     if growth:
         q += [
@@ -181,6 +184,9 @@ def aset_scopes(tier, fill=1, rnd=True, logs=True):
         q += [
             S("aset", type="A16log", mode="bfs", slots=5, vals=keys(6, 1), fill=0),
             S("aset", type="A8log", mode="random", slots=70, vals=keys(150, 1), histories=40, length=500, fill=0),
+            # hundreds of members: probe counts of lookups among 200-300 elements
+            S("aset", type="A16log", mode="random", slots=300, vals=keys(600, 1), histories=2, length=3500, checkpoint=100, fill=0),
+            S("aset", type="A8log", mode="random", slots=255, vals=keys(500, 1), histories=2, length=3000, checkpoint=100, fill=0),
         ]
     if rnd:
         q += [
